@@ -7,6 +7,7 @@ import props_life
 import props_keys
 import props_panic
 import props_sibling
+import props_values
 
 COMMON_ASSUMPTIONS = [
     "rustc's type checker / MIR construction and the fact extractor's serialisation are trusted",
@@ -96,6 +97,11 @@ PROPS = {
                             "and no unexpected user callback under a lock.",
                 assumptions=["overflow checks (debug builds only) on cost / counter arithmetic are not counted as panic sites: costs are user data outside the configuration space of C20",
                              "the system clock does not step backwards (Time::elapsed / unix unwrap a SystemTimeError)"]),
+    "C08": dict(fn=props_values.check_C08, floor={"sync": 40, "async": 40},
+                explanation="Value conservation decided structurally: (R08.1) move analysis on mir_built of every repository body: each implicit drop of a value-bearing local (V, Option<V>, "
+                            "StoreItem<V>, Item<V>, UpdateResult<V>, send errors, ...) that is live on some path is enumerated and must be one of the audited `insert -> false` / remnant cases; "
+                            "(R08.2) routing table: the closed list of callers of on_exit / on_evict / on_reject with the provenance of the value each hands over; (R08.3) no duplication or leak "
+                            "primitive anywhere (values stay affine); (R08.4) resident values are bulk-dropped only by ShardedMap::clear, reached only from clear()."),
     "C19": dict(fn=props_sibling.check_C19, floor={"sync": 0, "async": 750},
                 explanation="AsyncCache vs Cache decided structurally: (R19.1) every rule of every other property is instantiated on the async flavour - the only analysis the async code gets, "
                             "since the pinned test-suite never compiles it; (R19.2) effect-skeleton diff of 35 sibling function pairs: the sets of path signatures (multiset of store / policy / "
